@@ -2,4 +2,5 @@ import TinyFlux.Audit.Tool
 import TinyFlux.Props.C01
 import TinyFlux.Props.C01State
 import TinyFlux.Props.C01Witness
+import TinyFlux.Props.C01Mirror
 #audit TinyFlux.Props.C01
